@@ -48,7 +48,7 @@ pub enum Step {
 }
 
 pub fn min_packet(setup: &Setup) -> usize {
-    if setup.policy.var_ids || !matches!(setup.codec, CodecKind::Wire | CodecKind::WireDirty) {
+    if setup.policy.var_ids || !setup.codec.is_wire() {
         120
     } else {
         24
@@ -187,7 +187,12 @@ pub fn gen_hp(seed: u64, profile: &str, tier: Tier) -> HP {
     if profile == "C08" {
         setup.acc_twin = s.chance(1, 2);
     }
-    HP { profile: profile.to_string(), setup, addrs: s.range(3, 6) as u16, steps, timer_mode, weights, wild_config: wild }
+    let mut hp = HP { profile: profile.to_string(), setup, addrs: s.range(3, 6) as u16, steps, timer_mode, weights, wild_config: wild };
+    // injected fault of the no-panic check only: the instance's codec fails at random calls
+    if wild && hp.setup.codec.is_wire() && !hp.setup.policy.var_ids && s.chance(1, 3) {
+        hp.setup.codec = CodecKind::WireFlaky;
+    }
+    hp
 }
 
 struct Gen<'a> {
